@@ -6,6 +6,13 @@ import Blue.Model.KvsWrite
 
     * writer: `[lock: seq := ++seq_no; pick mem; link]` · `[log append]` · `[insert e₁]` … `[insert eₙ]`
       · `[lock: wait until head; unlink; visible := seq]`
+    * a write that fails (`wFail`: the log refuses the batch — empty, an entry too long, too large —
+      before anything is appended; `MemTable::write` cannot fail): it has taken its sequence number
+      and its place in the wait list, it inserts nothing, unlinks and publishes nothing.  Its number
+      is a gap in the published sequence for ever (`failed`).  The step is enabled wherever the
+      ticket stands in the list (the store as found drops the guard on its early return); the
+      repaired store lets a failed write leave in its turn, as head, and the driver checks that on
+      every recorded trace (`failedLeavesAtHead`).
     * flush thread: `[lock: imm := mem; mem := new; mem_seq_no := seq_no++; link]` ·
       `[lock: wait until head; unlink]` · `[install version]` · `[lock: imm := none]`
     * reader: `[lock: mem, imm; clone the tree version (its own step, under the version mutex); ts]`
@@ -78,11 +85,13 @@ structure St where
   /-- readers that hold a tree version and have not yet taken mem / imm: (reader, (flushed tables
       of that version, ghost: no `fClear` since)) -/
   trees : List (Nat × (List Nat × Bool))
+  /-- ghost: the sequence numbers of the writes that failed -/
+  failed : List Nat
 deriving DecidableEq, Repr
 
 /-- the store after `open`: `seq_no`, `mem_seq_no` as `verif_state` reports them -/
 def init (completed : Bool) (seqNo memId : Nat) : St :=
-  ⟨completed, seqNo, seqNo, memId, none, false, false, [], [], [], [], [], [], 0, []⟩
+  ⟨completed, seqNo, seqNo, memId, none, false, false, [], [], [], [], [], [], 0, [], []⟩
 
 inductive Ev where
   | wBegin (seq tbl : Nat) (batch : List (Nat × Option Nat))
@@ -99,6 +108,9 @@ inductive Ev where
   /-- reader `rid` clones the installed tree version, which must be number `vid` -/
   | rTree (rid vid : Nat)
   | rSnap (rid ts mem : Nat) (imm : Bool)
+  /-- the write with number `seq` fails before its log append has returned: it leaves the wait
+      list (from any position) without publishing its number -/
+  | wFail (seq : Nat)
 deriving DecidableEq, Repr
 
 def updWriter (ws : List Writer) (seq : Nat) (f : Writer → Writer) : List Writer :=
@@ -174,6 +186,15 @@ def step (s : St) : Ev → Option St
                       trees := s.trees.filter (fun p => p.1 ≠ rid) }
       else none
     | none => none
+  | .wFail seq =>
+    match findWriter s seq with
+    | some w =>
+      if w.finished = false ∧ w.todo = w.batch ∧ seq ∉ s.logged then
+        some { s with queue := s.queue.filter (fun t => decide (t ≠ Ticket.w seq)),
+                      writers := s.writers.filter (fun w => decide (w.seq ≠ seq)),
+                      failed := seq :: s.failed }
+      else none
+    | none => none
 
 def run (s : St) : List Ev → Option St
   | [] => some s
@@ -218,5 +239,11 @@ def insertsIntoOpenTable (s : St) (seq : Nat) : Bool :=
   match findWriter s seq with
   | some w => !(s.sealed && s.imm == some w.tbl) && !(s.flushed.contains w.tbl)
   | none => true
+
+/-- does the failing write `seq` leave the wait list in its turn, as its head?  (A monitor for
+    recorded runs: the repaired `write` sends a failed write through the same in-order exit as a
+    successful one; a write that leaves out of turn keeps its slot in the ring until the head
+    moves — `Blue.WaitList.ring_fills_behind_one_guard`.) -/
+def failedLeavesAtHead (s : St) (seq : Nat) : Bool := s.queue.head? == some (Ticket.w seq)
 
 end Blue.KvsConc
